@@ -1,2 +1,3 @@
 pub mod c01;
+pub mod c03;
 pub mod c20;
